@@ -306,6 +306,11 @@ pub fn child(req_json: &str) -> i32 {
             rs.push(("with_timezone".into(), g(&mut || { let d = Utc.from_utc_datetime(&n).with_timezone(&Local); if d.naive_utc() != n { return i32::MIN; } d.offset().fix().local_minus_utc() })));
             rs.push(("From<DateTime<Utc>>".into(), g(&mut || DateTime::<Local>::from(Utc.from_utc_datetime(&n)).offset().fix().local_minus_utc())));
             rs.push(("timestamp_opt".into(), g(&mut || match Local.timestamp_opt(u, 0) { MappedLocalTime::Single(d) => d.offset().fix().local_minus_utc(), _ => i32::MIN })));
+            // the same instant plus half a second: the offset in force does not depend on the sub-second part
+            if let Some(n2) = n.checked_add_signed(chrono::TimeDelta::milliseconds(500)) {
+                rs.push(("offset_from_utc_datetime (+0.5 s)".into(), g(&mut || Local.offset_from_utc_datetime(&n2).fix().local_minus_utc())));
+                rs.push(("from_utc_datetime (+0.5 s)".into(), g(&mut || { let d = Local.from_utc_datetime(&n2); if d.naive_utc() != n2 { return i32::MIN; } d.offset().fix().local_minus_utc() })));
+            }
             // text and serde round trips of the Local value keep the instant and find the same offset
             // (whole-minute offsets only: the text forms cannot carry offset seconds)
             let here = Local.offset_from_utc_datetime(&n).fix().local_minus_utc();
@@ -345,6 +350,8 @@ pub enum TzSrc {
     Rule(Rule, bool),
     /// file of the system database, named relative to the zoneinfo directory; colon prefix or not
     System(String, bool),
+    /// generated zone file written to a scratch directory, named by absolute path; colon prefix or not
+    File(ZoneFile, bool),
 }
 #[derive(Clone, Debug, Serialize, Deserialize)]
 pub struct LCase {
@@ -358,7 +365,7 @@ impl SubCheck for LocalRoutes {
         "local_routes"
     }
     fn rule(&self) -> &'static str {
-        "case = a zone named through TZ (generated POSIX rule, or a file of the system database by relative name) in a child process; every public route from Local to the two lookups (offset_from_utc_datetime, from_utc_datetime, with_timezone, From<DateTime<Utc>>, timestamp_opt, the Display/FromStr, serde_json and bincode round trips of the Local value, offset_from_local_datetime, from_local_datetime, and_local_timezone, with_ymd_and_hms, and the deprecated date routes at 00:00:00 of the date) answers what the zone data prescribe, probed around the transitions, inside gaps and folds and at the midnights next to them; non-trivial = a probe inside a gap or fold, or a midnight within a day of a transition"
+        "case = a zone named through TZ (generated POSIX rule, a file of the system database by relative name, or a generated TZif file - up to 12,000 transitions - by absolute path) in a child process; every public route from Local to the two lookups (offset_from_utc_datetime, from_utc_datetime, with_timezone, From<DateTime<Utc>>, timestamp_opt, the Display/FromStr, serde_json and bincode round trips of the Local value, offset_from_local_datetime, from_local_datetime, and_local_timezone, with_ymd_and_hms, and the deprecated date routes at 00:00:00 of the date) answers what the zone data prescribe, probed around the transitions, inside gaps and folds and at the midnights next to them; non-trivial = a probe inside a gap or fold, or a midnight within a day of a transition"
     }
     fn strategy(&self) -> Option<BoxedStrategy<LCase>> {
         let files: Vec<String> = system_files().into_iter().filter_map(|p| p.strip_prefix("/usr/share/zoneinfo/").map(String::from)).filter(|n| !n.starts_with("right/") && !n.starts_with("posix/")).collect();
@@ -368,9 +375,12 @@ impl SubCheck for LocalRoutes {
             return Some(rule.boxed());
         }
         let sys = (proptest::sample::select(files), any::<bool>(), 1950i64..2037).prop_map(|(n, colon, y)| LCase { tz: TzSrc::System(n, colon), extra: vec![cal::days_from_civil(y, 7, 20) * 86_400] });
-        Some(prop_oneof![3 => rule, 1 => sys].boxed())
+        // generated files, a few of them far larger than any real zone file (tens of kilobytes)
+        let file = (prop_oneof![8 => zone_file(40), 1 => zone_file(3000), 1 => zone_file(12_000)], any::<bool>(), extra_instants()).prop_map(|(f, colon, extra)| LCase { tz: TzSrc::File(f, colon), extra });
+        Some(prop_oneof![3 => rule, 1 => sys, 1 => file].boxed())
     }
     fn check(&self, c: &LCase, obs: &mut Obs) -> Result<(), String> {
+        let mut scratch: Option<std::path::PathBuf> = None;
         let (tzval, m) = match &c.tz {
             TzSrc::Rule(rule, explicit) => {
                 let m = match rule {
@@ -385,9 +395,19 @@ impl SubCheck for LocalRoutes {
                 if let Some(r) = &m.footer { if !r.well_inside_year() { obs.label("skipped_footer_rule_outside_quantifier"); return Ok(()); } }
                 (if *colon { format!(":{name}") } else { name.clone() }, m)
             }
+            TzSrc::File(f, colon) => {
+                let bytes = f.bytes();
+                obs.label_if(bytes.len() > 65_536, "file_larger_than_64_KiB");
+                let dir = crate::props::c18::work_dir().join("c05");
+                std::fs::create_dir_all(&dir).map_err(|e| format!("harness: {e}"))?;
+                let path = dir.join(format!("z-{}-{:?}.tzif", std::process::id(), std::thread::current().id()).replace(['(', ')'], ""));
+                std::fs::write(&path, &bytes).map_err(|e| format!("harness: {e}"))?;
+                scratch = Some(path.clone());
+                (if *colon { format!(":{}", path.display()) } else { path.display().to_string() }, f.model.clone())
+            }
         };
         if let Some(r) = &m.footer { if !r.well_inside_year() { obs.label("skipped_rule_outside_quantifier"); return Ok(()); } }
-        obs.label(if matches!(c.tz, TzSrc::Rule(..)) { "posix_rule" } else { "system_file" });
+        obs.label(match c.tz { TzSrc::Rule(..) => "posix_rule", TzSrc::System(..) => "system_file", TzSrc::File(..) => "generated_file" });
         let (mut inst, mut wall) = probes(&m, &c.extra);
         // the midnights around every probed change point (the deprecated date routes look there)
         let pts: Vec<i64> = inst.iter().copied().step_by(5).take(24).collect();
@@ -401,7 +421,10 @@ impl SubCheck for LocalRoutes {
         wall.truncate(400);
         let req = serde_json::to_string(&LReq { inst: inst.clone(), wall: wall.clone() }).map_err(|e| format!("harness: {e}"))?;
         let exe = std::env::current_exe().map_err(|e| format!("harness: {e}"))?;
-        let out = std::process::Command::new(exe).arg("c05-child").arg(&req).env("TZ", &tzval).output().map_err(|e| format!("harness: cannot spawn child: {e}"))?;
+        let out = std::process::Command::new(exe).arg("c05-child").arg(&req).env("TZ", &tzval).output().map_err(|e| format!("harness: cannot spawn child: {e}"));
+        if let Some(p) = &scratch { let _ = std::fs::remove_file(p); }
+        let out = out?;
+        let tzval = if scratch.is_some() { format!("<generated file, {} transitions>", m.transitions.len()) } else { tzval };
         if !out.status.success() {
             return Err(format!("TZ={tzval}: child process failed ({}): {}", out.status, String::from_utf8_lossy(&out.stderr).chars().take(300).collect::<String>()));
         }
